@@ -485,6 +485,32 @@ def stepOwn (st : OwnSt) (toks : List String) : Option (OwnSt × String) :=
         | _, _, _, _ => if n = "" then bad else bad
       | _ => bad
     | _, _, _ => bad
+  | "own.dseq" :: d :: src :: _ed :: _descs =>
+    -- `bufr_create_dataset_from_sequence`: a dataset, its template and one subset made from tables, like a decode
+    match slotOf d, parseTArg src with
+    | some d, some sa =>
+      if held st (slotD d) || (resolveT st.s sa).isNone then bad else
+      match obs with
+      | ["null", c] =>
+        (match parseFlag 'c' c with
+         | some c' => doOps st [.tcache sa (c' ≠ 0)] fun _ => s!"null {c}"
+         | none => bad)
+      | "ok" :: inv :: _n :: sh :: f0 :: f1 :: f2 :: f3 :: cm :: rest =>
+        let c := rest.getD (rest.length - 1) ""
+        let shs := (rest.take (rest.length - 1)).filterMap parseShape
+        match parseTShape sh, parseFields [f0, f1, f2, f3], parseFlag 'c' cm, parseFlag 'c' c with
+        | some tsh, some fl, some cmv, some cv =>
+          doOps st [.tcache sa (cv ≠ 0), .dec d sa tsh (fl.getD 2 (0, 0)).2 (fl.getD 3 (0, 0)).2 (cmv ≠ 0) shs (extObs sa fl)] fun s =>
+            match s.slot? (slotD d) with
+            | some r => (match s.child? r roleTemplate, tablesOfDataset s r with
+              | some tn, some tb =>
+                s!"ok {inv} {(subsetsOf s r).length} {fmtTShape (tshapeOf tn)} {fmtTables s tb}" ++
+                  String.join ((subsetsOf s r).map fun x => " " ++ fmtShape { d := x.pay.descriptor, v := x.pay.value, af := x.pay.af, afd := x.pay.afd, rt := x.pay.rtmd, dpbm := x.pay.dpbm, arr := x.pay.array }) ++ s!" {c}"
+              | _, _ => "?")
+            | none => "?"
+        | _, _, _, _ => bad
+      | _ => bad
+    | _, _ => bad
   | ["own.store", b, d] =>
     match slotOf b, slotOf d with
     | some _, some d => if !held st (slotD d) then bad else some (st, " ".intercalate obs)
